@@ -355,14 +355,31 @@ func (i *interpreter) raceLoad(T types.Type, addr *value, fr *frame, pos token.P
 }
 
 func (i *interpreter) lockOp(m value, mode lockMode, acquire bool) {
-	if i.race == nil {
-		return
-	}
 	p, ok := m.(*value)
 	if !ok || p == nil {
 		return
 	}
 	a := cellAddr(p)
+	// Self-deadlock: the execution is single-threaded, so acquiring a mutex
+	// that this very execution still holds (exclusively, or shared when the
+	// new acquisition is exclusive) can never succeed. sync.RWMutex is not
+	// re-entrant; a read lock on top of a read lock is allowed.
+	if i.locks == nil {
+		i.locks = map[uintptr][]lockMode{}
+	}
+	if acquire {
+		for _, h := range i.locks[a] {
+			if h == lockExcl || mode == lockExcl {
+				panic(stop{kind: "unwind", id: "deadlock", msg: "a mutex is acquired while this call already holds it: the call can never return"})
+			}
+		}
+		i.locks[a] = append(i.locks[a], mode)
+	} else if hs := i.locks[a]; len(hs) > 0 {
+		i.locks[a] = hs[:len(hs)-1]
+	}
+	if i.race == nil {
+		return
+	}
 	if acquire {
 		i.race.epoch[a]++
 		i.race.held[a] = mode
